@@ -31,6 +31,11 @@ class NeedZero(Exception):
     type must contain the symbol '0'.  Drivers re-enumerate with it."""
 
 
+EXC_PARENTS = {"KeyError": {"LookupError"}, "IndexError": {"LookupError"}, "ZeroDivisionError": {"ArithmeticError"},
+               "NetworkXNotImplemented": {"NetworkXException"}, "NetworkXError": {"NetworkXException"},
+               "StopIteration": set(), "UnicodeDecodeError": {"ValueError"}}
+
+
 class Fork(Exception):
     def __init__(self, key):
         self.key = key
@@ -65,6 +70,13 @@ class _Return(Exception):
 class Int:
     """Integer term base + k (base is a symbol of the order type)."""
     __slots__ = ("base", "k")
+    hashable_value = True       # distinct terms are distinct keys (callers use distinct symbols for distinct values)
+
+    def __eq__(self, o):
+        return isinstance(o, Int) and (o.base, o.k) == (self.base, self.k)
+
+    def __hash__(self):
+        return hash(("Int", self.base, self.k))
 
     def __init__(self, base, k=0):
         self.base = base
@@ -197,6 +209,27 @@ class LoopVar:
         return "<elem of %r>" % (self.rng,)
 
 
+class FrozenV:
+    """frozenset of abstract hashables: hashable, equal as sets."""
+    hashable_value = True
+    python_type = "frozenset"
+
+    def __init__(self, items):
+        self.items = []
+        for x in items:
+            if x not in self.items:
+                self.items.append(x)
+
+    def __eq__(self, o):
+        return isinstance(o, FrozenV) and len(o.items) == len(self.items) and all(x in o.items for x in self.items)
+
+    def __hash__(self):
+        return hash(("FrozenV", len(self.items)))
+
+    def __repr__(self):
+        return "frozenset(%s)" % (self.items,)
+
+
 class SetObj:
     """A concrete set of abstract hashables (nodes, constants, tuples)."""
 
@@ -230,6 +263,14 @@ class _NotConcrete(Exception):
     pass
 
 
+class LambdaV:
+    def __init__(self, node, env):
+        self.node, self.env = node, env
+
+    def __repr__(self):
+        return "<lambda>"
+
+
 class PyFunc:
     """A module-level function of the analysed package, inlined when called."""
 
@@ -243,12 +284,23 @@ class PyFunc:
 FUNCTION_INDEX = {}     # name -> [(rel, FunctionDef)]  (set by the check driver from the module index)
 
 
+IMPORTED_NAMES = {}     # name bound by an import statement anywhere in the package -> dotted origin
+
+
 def set_function_index(repo):
     FUNCTION_INDEX.clear()
+    IMPORTED_NAMES.clear()
     for rel, tree in repo.modules.items():
         for node in tree.body:
             if isinstance(node, ast.FunctionDef):
                 FUNCTION_INDEX.setdefault(node.name, []).append((rel, node))
+        for node in ast.walk(tree):
+            if isinstance(node, ast.Import):
+                for a in node.names:
+                    IMPORTED_NAMES.setdefault((a.asname or a.name).split(".")[0], a.name)
+            elif isinstance(node, ast.ImportFrom) and node.module and not node.module.startswith("dynetx") and node.level == 0:
+                for a in node.names:
+                    IMPORTED_NAMES.setdefault(a.asname or a.name, "%s.%s" % (node.module, a.name))
 
 
 def lookup_function(name, prefer_rel=None):
@@ -277,7 +329,7 @@ class Builtin:
         self.name = name
 
 
-BUILTINS = ("isinstance", "type", "range", "max", "min", "len", "sorted", "iter", "next", "zip", "enumerate", "reversed", "sum", "any", "all", "abs", "float", "bool")
+BUILTINS = ("isinstance", "type", "range", "max", "min", "len", "sorted", "iter", "next", "zip", "enumerate", "reversed", "sum", "any", "all", "abs")
 
 
 def truth(v, node=None):
@@ -436,15 +488,27 @@ class Interp:
 
     def exec_try(self, st, env):
         if st.finalbody:
-            raise Unsupported(st, "try/finally")
+            # the finally block runs on every way out (normal, return, raise, break/continue)
+            try:
+                self._exec_try_core(st, env)
+            except (AbstractRaise, _Return, _Break, _Continue):
+                self.exec_block(st.finalbody, env)
+                raise
+            self.exec_block(st.finalbody, env)
+            return
+        self._exec_try_core(st, env)
+
+    def _exec_try_core(self, st, env):
         try:
             self.exec_block(st.body, env)
         except AbstractRaise as r:
             for h in st.handlers:
                 names = _handler_names(h)
-                if names is None or r.exc in names or "Exception" in names or "BaseException" in names:
+                if names is None or r.exc in names or "Exception" in names or "BaseException" in names or \
+                        (r.exc in EXC_PARENTS and EXC_PARENTS[r.exc] & names):
                     if h.name:
                         env[h.name] = Opaque("exc")
+                    self.w.on_handler(self, r, h)
                     self.exec_block(h.body, env)
                     return
             raise
@@ -550,7 +614,7 @@ class Interp:
         if isinstance(e, ast.Name):
             if e.id in env:
                 return env[e.id]
-            if e.id in ("list", "dict", "tuple", "set", "int", "str"):
+            if e.id in ("list", "dict", "tuple", "set", "int", "str", "frozenset", "float", "bool", "bytes"):
                 return TypeV(e.id)
             if e.id in BUILTINS:
                 return Builtin(e.id)
@@ -562,6 +626,8 @@ class Interp:
             r = lookup_function(e.id, getattr(self.w, "current_rel", None))
             if r is not None:
                 return r
+            if e.id in IMPORTED_NAMES:
+                return Opaque("module:" + IMPORTED_NAMES[e.id])
             raise Unsupported(e, "unbound name")
         if isinstance(e, ast.Attribute):
             obj = self.eval(e.value, env)
@@ -619,6 +685,8 @@ class Interp:
             return TRUE
         if isinstance(e, ast.Call):
             return self.call(e, env)
+        if isinstance(e, ast.Lambda):
+            return LambdaV(e, dict(env))
         if isinstance(e, ast.IfExp):
             if self.truth(self.eval(e.test, env), e.test):
                 return self.eval(e.body, env)
@@ -743,7 +811,7 @@ class Interp:
         return self.w.contains(self, container, x, node)
 
     def dict_key(self, k, node):
-        if isinstance(k, (Const, NodeV, TupleV)):
+        if isinstance(k, (Const, NodeV, TupleV)) or getattr(k, "hashable_value", False):
             return k
         raise Unsupported(node, "dict key %r" % (k,))
 
@@ -845,9 +913,15 @@ class Interp:
     # -- calls -------------------------------------------------------------------
     def call(self, e, env):
         f = self.eval(e.func, env)
-        if any(isinstance(a, ast.Starred) for a in e.args):
-            raise Unsupported(e, "star arguments")
-        args = [self.eval(a, env) for a in e.args]
+        args = []
+        for a in e.args:
+            if isinstance(a, ast.Starred):
+                seq = _concrete_seq(self.eval(a.value, env))
+                if seq is None:
+                    raise Unsupported(e, "star arguments")
+                args.extend(seq)
+            else:
+                args.append(self.eval(a, env))
         kwargs = {}
         for k in e.keywords:
             v = self.eval(k.value, env)
@@ -872,6 +946,12 @@ class Interp:
                                 raise AbstractRaise("TypeError", e, detail="unhashable set element")
                         return SetObj(seq)
                     return ListObj(seq) if f.name == "list" else TupleV(seq)
+            if f.name == "frozenset" and len(args) <= 1:
+                seq = _concrete_seq(args[0]) if args else []
+                if seq is not None:
+                    return FrozenV(seq)
+            if f.name in ("float", "bool") and len(args) == 1 and isinstance(args[0], Const):
+                return Const({"float": float, "bool": bool}[f.name](args[0].v))
             if f.name in ("list", "set") and not args:
                 return ListObj([]) if f.name == "list" else SetObj()
             if f.name == "dict" and len(args) == 1 and not kwargs:
@@ -892,6 +972,14 @@ class Interp:
             raise Unsupported(e, "constructor call")
         if isinstance(f, BoundMethod):
             return self.call_method(f, args, kwargs, e)
+        if isinstance(f, LambdaV):
+            a = f.node.args
+            names = [x.arg for x in a.args]
+            if len(args) != len(names) or kwargs or a.vararg or a.kwarg:
+                raise Unsupported(e, "lambda call")
+            env2 = dict(f.env)
+            env2.update(zip(names, args))
+            return self.eval(f.node.body, env2)
         if isinstance(f, PyFunc):
             if self.depth >= self.max_depth + 3:
                 raise Unsupported(e, "call depth")
@@ -908,7 +996,14 @@ class Interp:
 
     def call_builtin(self, name, args, kwargs, node):
         if name == "isinstance" and len(args) == 2:
-            return Const(self.type_of(args[0], node).name == _tname(args[1], node))
+            tn = self.type_of(args[0], node).name
+            types = args[1].items if isinstance(args[1], TupleV) else [args[1]]
+            res = False
+            for t in types:
+                if isinstance(t, Opaque):
+                    continue        # a library type (os.PathLike, ...): none of the abstract values is one
+                res = res or tn == _tname(t, node)
+            return Const(res)
         if name == "type" and len(args) == 1:
             return self.type_of(args[0], node)
         if name == "range":
@@ -944,10 +1039,20 @@ class Interp:
                 return Const(max(x.v for x in seq) if name == "max" else min(x.v for x in seq))
             if seq is not None and not seq:
                 raise AbstractRaise("ValueError", node, detail="%s() of an empty sequence" % name)
+            if seq is not None and all(isinstance(x, Int) for x in seq):
+                best = seq[0]
+                for x in seq[1:]:
+                    if self.cmp_int(x, best, ">" if name == "max" else "<", node):
+                        best = x
+                return best
         if name == "sorted" and len(args) == 1 and not kwargs:
             seq = _concrete_seq(args[0])
             if seq is not None and all(isinstance(x, Const) and isinstance(x.v, (int, float)) for x in seq):
                 return ListObj(sorted(seq, key=lambda c: c.v))
+            if seq is not None and seq and all(isinstance(x, Int) for x in seq):
+                import functools
+                return ListObj(sorted(seq, key=functools.cmp_to_key(
+                    lambda a, b: 0 if self.cmp_int(a, b, "==", node) else (-1 if self.cmp_int(a, b, "<", node) else 1))))
         if name in ("float", "abs", "bool") and len(args) == 1 and isinstance(args[0], Const):
             return Const({"float": float, "abs": abs, "bool": bool}[name](args[0].v))
         if name == "len" and len(args) == 1:
@@ -1007,6 +1112,9 @@ class Interp:
             return TypeV("dict")
         if isinstance(v, NodeV):
             return TypeV("nodetype")
+        t = getattr(v, "python_type", None)
+        if t:
+            return TypeV(t)
         raise Unsupported(node, "type of %r" % (v,))
 
     def call_method(self, bm, args, kwargs, node):
